@@ -84,11 +84,16 @@ def conn():
     return _conn
 
 
-def load_periods(years: Sequence[int]) -> None:
+def load_years(years: Sequence[int]) -> None:
     c = conn()
     c.execute("DROP TABLE IF EXISTS yrs")
     c.execute("CREATE TABLE yrs(y INTEGER)")
     c.executemany("INSERT INTO yrs VALUES (?)", [(int(y),) for y in years])
+
+
+def load_periods(years: Sequence[int]) -> None:
+    c = conn()
+    load_years(years)
     c.execute("DROP TABLE IF EXISTS periods")
     c.execute("""CREATE TABLE periods AS
         SELECT y, ind, CAST(num AS INTEGER) AS num,
@@ -168,6 +173,7 @@ def sql_calendar_rows(years: Sequence[int], shifts: Dict[int, List[int]], units:
                       ) -> Tuple[Dict[int, List[int]], Dict[int, List[List[int]]]]:
     """DuckDB date builtins, vtl_time_agg_date and vtl_dateadd (shifts[y] x units[y]) on every day of the years."""
     c = conn()
+    load_years(years)
     yr = c.execute(f"""SELECT y, CAST(DAYOFYEAR(MAKE_DATE(y,12,31)) = 366 AS INTEGER), DAYOFYEAR(MAKE_DATE(y,12,31)),
                               WEEKOFYEAR(MAKE_DATE(y,12,28)), {_day('MAKE_DATE(y,1,1)')},
                               {_day("STRPTIME(CAST(y AS VARCHAR) || '-W01-1', '%G-W%V-%u')")}
